@@ -9,8 +9,8 @@ log=$out/confirm.txt; : > $log
 git checkout -q -- . ; git clean -fdq
 demo=$(ls $out/*_test.go 2>/dev/null | head -1)
 cmdline=$(grep -m1 -o 'go1.26.8 test[^`]*' $out/demo_path.txt)
-rel=$(grep -m1 -oE '[A-Za-z0-9_/.-]*seed_[a-z0-9_]*_test\.go' $out/demo_path.txt | head -1)
-[ -z "$rel" ] && rel=$(basename $demo)
+dir=$(echo "$cmdline" | awk '{print $NF}'); dir=${dir#./}; dir=${dir%/}; [ "$dir" = "." ] && dir=""
+rel=${dir:+$dir/}$(basename $demo)
 echo "demo=$demo rel=$rel cmd=$cmdline" >> $log
 cp $demo $wt/$rel
 # without change
